@@ -1,6 +1,6 @@
 PROPERTY = "C09"
 LEVEL = "proof"
-LEAN_MODULES = ["CifModel.Props.C09", "CifModel.Props.C09Buf", "CifModel.Props.C09Api", "CifModel.Lemmas.NamesLink", "CifModel.Props.ReviewC09"]
+LEAN_MODULES = ["CifModel.Props.C09", "CifModel.Props.C09Buf", "CifModel.Props.C09Api", "CifModel.Props.C09Store", "CifModel.Lemmas.NamesLink", "CifModel.Props.ReviewC09"]
 REQUIRED = ["CifModel.C09_idempotent", "CifModel.C09_canon_invariant", "CifModel.C09_normal_form_is_caseless_match",
             "CifModel.C09_norm_of_valid", "CifModel.C09_match_iff", "CifModel.C09_invalid_refused",
             "CifModel.C09_table_keys", "CifModel.C09_table_enumeration", "CifModel.C09_packet_names", "CifModel.C09_map_invariant",
@@ -9,7 +9,7 @@ REQUIRED = ["CifModel.C09_idempotent", "CifModel.C09_canon_invariant", "CifModel
             "CifModel.Lemmas.NamesLink.consts_link", "CifModel.Lemmas.NamesLink.bmpDisallowed_link",
             "CifModel.C09_normalize_buffer_refines", "CifModel.C09_unicode_normalize_buffer", "CifModel.C09_fold_case_buffer",
             "CifModel.C09_normalize_buffer_cstring", "CifModel.C09_normalize_entry_buffer_refines",
-            "CifModel.C09_entry_points", "CifModel.C09_store_block_match"]
+            "CifModel.C09_entry_points", "CifModel.C09_store_block_match", "CifModel.C09_table_survives_store"]
 GEN = ["ErrCodes", "NamesConsts"]
 FAMILIES = ["valid", "norm"]
 TRUSTED_BASE = [
@@ -47,7 +47,9 @@ ASSUMPTIONS = [
 ]
 PARTIAL = [
     "the theorems about tables and packets are about the map of map.c at association-list level (Model/Normalize.lean `Entries`, tied by "
-    "family `norm map`); that uthash enumerates in insertion order, and key / key_orig memory ownership, are correspondence-only "
+    "family `norm map`, which also sends every table through a managed CIF - set_value / get_value, loop packet / packet iterator - and "
+    "probes the READ-BACK table: C09_table_survives_store, from C07's serialisation round trip; a packet delivered by a packet iterator "
+    "carries its NORMALISED names as spellings - modelled, no property fixes that spelling); that uthash enumerates in insertion order, and key / key_orig memory ownership, are correspondence-only "
     "(families norm, val; C16 / C19 for the heap level)",
     "C09_entry_points instantiates the name parameter of the entry-point models of other groups (Model/Store.lean create_block / "
     "create_frame / create_loop / set_value / add_item, Model/Value.lean table set / packet set / packet create) with the C09 models down to "
